@@ -550,6 +550,8 @@ def run(an: Analysis, rep):
                       + ("; the command prints it with ensure_ascii=False, so every plain string in it must be UTF-8 encodable or the print itself fails" if raw_print else ""))
     root, defs = load_schema(an)
     enc, cdec = find_json_functions(an)
+    from . import c12 as _c12m
+    rep.run(_c12m.arg_mutation_rule, an, shj, "R12.1", ["from_json"])
     rep.run(c07.r071, an, shj, enc, cdec, defs)
     rep.run(c07.r073, an, shj, enc)
     rep.run(c07.r07a, an, shj, enc)
